@@ -136,11 +136,79 @@ def fam_same(rng, n):
     return [list(p) for _ in range(n)]
 
 
+def _sphere_pt(rng, c, R, jit):
+    """integer point at distance about R from c, jittered by up to jit per axis; the direction is
+    a coordinate axis (as between the layers of a structured mesh) or random"""
+    if rng.random() < 0.65:
+        u = [0.0, 0.0, 0.0]
+        u[rng.randrange(3)] = rng.choice([-1.0, 1.0])
+        nu = 1.0
+    else:
+        while True:
+            u = [rng.gauss(0, 1) for _ in range(3)]
+            nu = math.sqrt(sum(x * x for x in u))
+            if nu > 1e-6:
+                break
+    return [int(round(c[i] + R * u[i] / nu)) + rng.randint(-jit, jit) for i in range(3)]
+
+
+def leafscale_pair(rng, nA, nB):
+    """near ties at the scale of an octree leaf (NOT exact ties).  The corners (0,0,0), (E,E,E)
+    pin the bounding box, so the leaf grid is known: leaf width lw = 2^ceil(log2(0.51 E)) / 128,
+    origin g0.  Points of B sit in chosen leaves; every point of A sits m leaves away from "its"
+    point of B along a coordinate axis (as between the layers of a structured mesh) or in a random
+    direction, and the positions *inside* the leaves are drawn with a bias to the two ends of the
+    leaf.  Nearest distances then differ by fractions of a leaf width while the cell-to-cell
+    bounds that order the search and trigger its early exits differ by whole leaves."""
+    E = rng.choice([30000, 30000, 14000, 60000, 25600])
+    w0 = 2 ** math.ceil(math.log2(0.51 * E))
+    lw = w0 // 128
+    g0 = round((E / 2) / (lw // 2)) * (lw // 2) - w0            # low face of the root cell
+    ncell = E // lw
+
+    def off():
+        r = rng.random()
+        f = rng.uniform(0.02, 0.2) if r < 0.4 else rng.uniform(0.8, 0.98) if r < 0.8 else rng.uniform(0.05, 0.95)
+        return max(1, min(lw - 1, int(f * lw)))
+
+    def place(cell):
+        return [min(max(g0 + cell[i] * lw + off(), 0), E) for i in range(3)]
+    m = rng.choice([2, 3, 5, 8, 20, 33])
+    B = [[0, 0, 0], [E, E, E]]
+    cellsB = []
+    lo_c = -(g0 // lw) + m + 2
+    hi_c = lo_c + ncell - 2 * m - 6
+    for _ in range(max(1, nB - 2)):
+        cb = [rng.randint(lo_c, max(lo_c, hi_c)) for _ in range(3)]
+        cellsB.append(cb)
+        B.append(place(cb))
+    A = []
+    for i in range(nA):
+        cb = cellsB[i % len(cellsB)] if rng.random() < 0.7 else rng.choice(cellsB)
+        ca = list(cb)
+        if rng.random() < 0.75:
+            ax = rng.randrange(3)
+            ca[ax] += rng.choice([-1, 1]) * (m + rng.choice([0, 0, 0, 0, 1, -1]))
+            for j in range(3):
+                if j != ax and rng.random() < 0.2:
+                    ca[j] += rng.choice([-1, 1])
+        else:
+            d = _sphere_pt(rng, [0, 0, 0], m, 0)
+            ca = [cb[j] + d[j] for j in range(3)]
+        A.append(place(ca))
+    return A, B
+
+
+def fam_leafscale(rng, n):
+    A, B = leafscale_pair(rng, max(1, n // 2), max(2, n - n // 2))
+    return (A + B)[:max(n, 2)]
+
+
 FAMILIES = {
     'random': fam_random, 'cluster': fam_cluster, 'collinear': fam_collinear,
     'coplanar': fam_coplanar, 'lattice': fam_lattice, 'dups': fam_dups,
     'pythag': fam_pythag, 'border': fam_border, 'same': fam_same,
-    'axisplane': fam_axisplane, 'dyadic': fam_dyadic,
+    'axisplane': fam_axisplane, 'dyadic': fam_dyadic, 'leafscale': fam_leafscale,
 }
 FAM_ORDER = ['border', 'pythag', 'axisplane', 'lattice', 'dyadic', 'cluster', 'collinear', 'coplanar',
              'dups', 'random', 'border', 'same', 'axisplane', 'pythag', 'dyadic', 'lattice']
@@ -250,10 +318,30 @@ def final_ok(c, r):
     return c.get('B') is None or ints(f['B']) == c['final']['B']
 
 
-def gen_knn_calls(ctx, n_calls, nmax):
+def gen_knn_leafscale(rng):
+    """many targets at nearly the same distance (differences of a fraction of a leaf width) from
+    each query; k small, bound none / just above / just below those distances"""
+    T, Q = leafscale_pair(rng, _ri(rng, 20, 40), _ri(rng, 3, 5))
+    corners = Q[:2]
+    Q = Q[2:] + ([rng.choice(T)] if rng.random() < 0.5 else [])
+    ds = sorted(d2(q, t) for q in Q for t in T)
+    r = rng.random()
+    b = None if r < 0.4 else float(math.isqrt(ds[len(ds) // 3])) + rng.choice([0.5, 0.25, 0.0])
+    return {'fn': 'knn', 'family': 'leafscale', 'qmode': 'other', 'big': True,
+            'A': {'pts': Q}, 'B': {'pts': T + corners},
+            'k': rng.choice([1, 2, 3, 5]), 'bound': None if b is None else float(b).hex(), 'bound_f': b,
+            'bound2': bound_sq(b)}
+
+
+def gen_knn_calls(ctx, n_calls, nmax, leaf_every=9):
     rng = ctx.rng
     calls = []
     for i in range(n_calls):
+        if i % leaf_every == leaf_every - 4:
+            c = gen_knn_leafscale(rng)
+            c['id'] = len(calls)
+            calls.append(c)
+            continue
         fam = FAM_ORDER[i % len(FAM_ORDER)]
         nB = 1 if (fam == 'same' and rng.random() < 0.3) else _ri(rng, 2, nmax)
         if i % 11 == 7:
@@ -511,10 +599,18 @@ def octree_grid_replay(ctx, n_clouds):
     return lost_clouds
 
 
-def gen_hd_calls(ctx, n_calls, nmax, start_id):
+def gen_hd_calls(ctx, n_calls, nmax, start_id, leaf_every=6):
     rng = ctx.rng
     calls = []
     for i in range(n_calls):
+        if i % leaf_every == leaf_every - 2:
+            # near ties at leaf scale, many points (the value depends on the leaf visiting order)
+            A, B = leafscale_pair(rng, _ri(rng, 30, 70), _ri(rng, 3, 5))
+            if rng.random() < 0.25:
+                A, B = B, A
+            calls.append({'id': start_id + len(calls), 'fn': 'hd', 'family': 'leafscale', 'big': True,
+                          'A': {'pts': A}, 'B': {'pts': B}, 'directed': rng.random() < 0.6})
+            continue
         fa = FAM_ORDER[(2 * i) % len(FAM_ORDER)]
         fb = rng.choice(list(FAMILIES))
         A = FAMILIES[fa](rng, _ri(rng, 1, nmax))
@@ -876,7 +972,7 @@ def cnatl(l):
 
 
 HEADER = ['From Coq Require Import ZArith List Bool. Import ListNotations.',
-          'From FV.C16 Require Import Model.', 'Open Scope Z_scope.', 'Set Printing Width 100000.']
+          'From FV.C16 Require Import Model ModelSnap.', 'Open Scope Z_scope.', 'Set Printing Width 100000.']
 
 
 def coq_failing(ctx, name, defs, items, timeout=900):
@@ -1022,8 +1118,8 @@ def check_knn(ctx, calls, res, with_model=True):
                 fails.append((c, None, 'coordinates-after-history', 'harness'))
                 continue
         defs.append(f'Definition B_{c["id"]} : list P := {cPl(B)}.')
-        if with_model:
-            defs.append(f'Definition T_{c["id"]} : tree := octree 8 B_{c["id"]} B_{c["id"]}.')
+        if with_model and not c.get('big'):
+            defs.append(f'Definition T_{c["id"]} : tree := snapped_octree 8 B_{c["id"]} B_{c["id"]}.')
         if len(r['idx']) != len(A):
             fails.append((c, None, 'row-count', 'oracle'))
             continue
@@ -1052,9 +1148,9 @@ def check_knn(ctx, calls, res, with_model=True):
             items.append((cid, f'knn_agree_full {k}%nat {cD(b2)} {cP(q)} B_{c["id"]} '
                                f'{lib.coq_list([lib.coq_Z(i) for i in idx])} '
                                f'{lib.coq_list(vs)} {lib.coq_list([cfl(x) for x in dist])}'))
-            if with_model:
+            if with_model and not c.get('big'):
                 sb2 = 'Inf' if b2 is None else ('(Fin (-1))' if b2 < 0 else
-                                                f'(Fin ({b2} * octree_scale 8 * octree_scale 8))')
+                                                f'(Fin ({b2} * snap_scale 8 * snap_scale 8))')
                 model_items.append((cid, f'mdl T_{c["id"]} {k}%nat {sb2} {cP(q)} B_{c["id"]} {cD(b2)} '
                                          f'{lib.coq_list([lib.coq_Z(i) for i in idx])}'))
     failing, ok = coq_failing(ctx, 'CorrKnn', defs, items)
@@ -1069,7 +1165,7 @@ def check_knn(ctx, calls, res, with_model=True):
     if with_model and model_items:
         mdefs = defs + [
             'Definition mdl (t : tree) (k : nat) (sb : D) (q : P) (B : list P) (b : D) (idx : list Z) : bool :=',
-            '  match knn (S (size t)) k sb (scale_pt (octree_scale 8) q) t with',
+            '  match knn (S (size t)) k sb (scale_pt (snap_scale 8) q) t with',
             '  | Some r => validb t && list_eqb Z.eqb (map snd r) (map snd (knn_spec k b q B))',
             '  | None => false end.']
         mfail, mok = coq_failing(ctx, 'ModelKnn', mdefs, [(i, e) for i, e in model_items])
@@ -1129,10 +1225,10 @@ def check_hd(ctx, calls, res, with_model=True):
         spec = (f'hausdorff_directed_spec A_{c["id"]} B_{c["id"]}' if c['directed']
                 else f'hausdorff_spec A_{c["id"]} B_{c["id"]}')
         items.append((c['id'], f'dist_ok {cfl(r["hd"])} ({spec})'))
-        if with_model:
+        if with_model and not c.get('big'):
             U = f'(A_{c["id"]} ++ B_{c["id"]})'
             mitems.append((c['id'], f'hmdl {"true" if c["directed"] else "false"} '
-                                    f'(octree 8 {U} A_{c["id"]}) (octree 8 {U} B_{c["id"]}) ({spec})'))
+                                    f'(snapped_octree 8 {U} A_{c["id"]}) (snapped_octree 8 {U} B_{c["id"]}) ({spec})'))
     failing, ok = coq_failing(ctx, 'CorrHd', defs, items)
     ctx.corr['hd_calls_checked_in_coq'] = len(items)
     for cid in sorted(failing):
@@ -1141,7 +1237,7 @@ def check_hd(ctx, calls, res, with_model=True):
             fails.append((c, None, 'coq-spec-disagreement', 'coq'))
     if with_model and mitems:
         mdefs = defs + [
-            'Definition scaleD (x : D) : D := match x with Fin d => Fin (d * octree_scale 8 * octree_scale 8) | Inf => Inf end.',
+            'Definition scaleD (x : D) : D := match x with Fin d => Fin (d * snap_scale 8 * snap_scale 8) | Inf => Inf end.',
             'Definition hmdl (dir : bool) (tA tB : tree) (spec : D) : bool :=',
             '  match hausdorff pop_min (S (size tA + size tB)) dir tA tB with',
             '  | Some h => validb tA && validb tB && Deq_dec_b h (scaleD spec) | None => false end.']
@@ -1349,20 +1445,29 @@ def translate_bounds(ctx):
 
 
 def translate_loops(ctx):
-    """match the kernels against the text the model was written from and regenerate the
-    decision points of the k-NN search (coq/C16/gen/KnnCfg.v)"""
+    """match the kernels against the text the model was written from (literally, then in canonical
+    form) and regenerate the decision points of the k-NN search (coq/C16/gen/KnnCfg.v).
+    Returns None when the source cannot be parsed at all, else the dict of *unread* functions
+    (name -> reason).  An unread function is not an alarm: the theorems are then built against
+    the baseline configuration (cfg_code) and the streams of the functions it decides are widened."""
     try:
-        cfg, consumed = c16_loops.translate(str(lib.REPO))
-        ctx.sources.update(consumed)
-        ctx.notes['knn_decision_points'] = cfg
-        lib.write_if_changed(lib.COQ / 'C16' / 'gen' / 'KnnCfg.v', c16_loops.emit(cfg))
-        return True
-    except c16_loops.TranslateError as e:
-        ctx.log('loop translator failed closed:', e)
-        ctx.notes['loop_translator_error'] = str(e)
-    except SyntaxError as e:
-        ctx.notes['loop_translator_error'] = 'syntax error: ' + str(e)
-    return False
+        cfg, consumed, status = c16_loops.translate_each(str(lib.REPO))
+    except (SyntaxError, OSError, RecursionError) as e:
+        ctx.notes['loop_translator_error'] = type(e).__name__ + ': ' + str(e)
+        return None
+    ctx.sources.update(consumed)
+    ctx.notes['loop_translator_status'] = {f: s[:400] for f, s in status.items()}
+    unread = {f: s for f, s in status.items() if s.startswith('unread')}
+    if cfg is None:
+        cfg = dict(c16_loops.BASELINE_CFG)
+        ctx.notes['knn_decision_points_source'] = 'baseline (cfg_code): _nns_from_nodes_to_nodes could not be read'
+    else:
+        ctx.notes['knn_decision_points_source'] = 'read from the source (' + status['_nns_from_nodes_to_nodes'] + ')'
+    ctx.notes['knn_decision_points'] = cfg
+    lib.write_if_changed(lib.COQ / 'C16' / 'gen' / 'KnnCfg.v', c16_loops.emit(cfg))
+    for f, sres in unread.items():
+        ctx.log('loop translator could not read', f, '->', sres[:300])
+    return unread
 
 
 def validate_translation(ctx, pysrc, n=40):
@@ -1406,6 +1511,89 @@ def validate_translation(ctx, pysrc, n=40):
     return not failing and ok
 
 
+# ------------------------------------------- root cell of build_octree_node (snapped grid)
+def source_root_fn(ctx):
+    """the statements of build_octree_node that compute the root cell (everything before the cell
+    table is allocated), compiled from the CURRENT source text into root(points, boundingbox) ->
+    (x0, y0, z0, w0); None if the function does not have that shape"""
+    try:
+        src = (lib.REPO / 'femio' / 'graph_processor.py').read_text()
+        tree = ast.parse(src)
+        fn = c16_loops.find_def(tree, 'build_octree_node')
+        body = c16_loops.strip_doc(list(fn.body))
+        head = []
+        for st in body:
+            names = {n.id for n in ast.walk(st) if isinstance(n, ast.Name)}
+            if 'node_xyzw' in names or isinstance(st, (ast.For, ast.While, ast.FunctionDef)):
+                break
+            head.append(st)
+        stored = {n.id for st in head for n in ast.walk(st) if isinstance(n, ast.Name) and isinstance(n.ctx, ast.Store)}
+        if not {'x0', 'y0', 'z0', 'w0'} <= stored or len(fn.args.args) != 2:
+            return None
+        a0, a1 = fn.args.args[0].arg, fn.args.args[1].arg
+        f = ast.FunctionDef(name='root', args=ast.arguments(posonlyargs=[], args=[ast.arg(arg=a0), ast.arg(arg=a1)],
+                                                          kwonlyargs=[], kw_defaults=[], defaults=[]),
+                            body=head + [ast.parse('return (x0, y0, z0, w0)').body[0]], decorator_list=[])
+        try:
+            f.type_params = []
+        except Exception:  # noqa
+            pass
+        mod = ast.fix_missing_locations(ast.Module(body=[f], type_ignores=[]))
+        import numpy as np
+        ns = {'np': np}
+        ns.update(c16_loops.module_constants(tree))
+        exec(compile(mod, '<build_octree_node root>', 'exec'), ns)
+        ctx.notes['root_cell_source'] = ast.unparse(f)[:900]
+        return ns['root']
+    except Exception as e:  # noqa
+        ctx.notes['root_cell_source_error'] = repr(e)[:300]
+        return None
+
+
+def check_root(ctx, calls, root):
+    """correspondence for ModelSnap.snapped_box: the root cell computed by the source text on the
+    call's bounding box (same dtype as the implementation sees) vs the Coq model, exactly"""
+    import numpy as np
+    defs, items, meta = [], [], {}
+    for c in calls:
+        if c.get('approx') or c['fn'] not in ('knn', 'hd'):
+            continue
+        if c['fn'] == 'knn':
+            pts, key = PB(c), ('B' if c.get('B') else 'A')
+            dt = (c.get(key) or {}).get('dtype', 'float64')
+        else:
+            pts = PA(c) + PB(c)
+            dt = 'float64'
+            if c['A'].get('dtype') or c['B'].get('dtype'):
+                continue                      # mixed dtypes: min/max promote; not replayed
+        if dt == 'float32' or len(pts) > 80:
+            continue                          # float32 sums may round; informational only
+        arr = np.array(pts, dtype=dt).reshape(-1, 3)
+        bb = (arr[:, 0].min(), arr[:, 0].max(), arr[:, 1].min(), arr[:, 1].max(), arr[:, 2].min(), arr[:, 2].max())
+        try:
+            r = [float(v) for v in root(arr, bb)]
+        except Exception as e:  # noqa
+            ctx.notes['root_cell_exec_error'] = repr(e)[:200]
+            return None
+        if not all(math.isfinite(v) for v in r):
+            continue
+        fr = [float(v).as_integer_ratio() for v in r]
+        defs.append(f'Definition RP_{c["id"]} : list P := {cPl(pts)}.')
+        items.append((c['id'], f'root_agree 256 RP_{c["id"]} ' + ' '.join(
+            f'({lib.coq_Z(n)}, {lib.coq_Z(d)})' for n, d in fr)))
+        meta[c['id']] = c
+    failing, ok = coq_failing(ctx, 'CorrRoot', defs, items)
+    ctx.corr['root_cells_checked_in_coq'] = ctx.corr.get('root_cells_checked_in_coq', 0) + len(items)
+    if failing:
+        c = meta[sorted(failing)[0]]
+        ctx.violation('correspondence', {'call': strip(c), 'n_disagreeing': len(failing)},
+                      'root cell of build_octree_node (source text, binary64) = snapped_box (ModelSnap.v)',
+                      'differs', 'C16_snapped_root_contains / correspondence root_agree', found_input=True,
+                      signature={'kind': 'root-cell', 'fn': c['fn'], 'family': c['family']},
+                      what='the root cell computed by build_octree_node differs from the model of the snapped grid')
+    return len(failing)
+
+
 # ----------------------------------------------------------------- source sha
 REGIONS = ['_calculate_euclidean_hop_graph_nodal', '_calculate_euclidean_hop_graph_elemental',
            'calculate_euclidean_hop_graph', 'build_octree_node', '_nns_from_nodes_to_nodes',
@@ -1445,7 +1633,9 @@ def main(ctx):
         ctx.notes['source_regions_error'] = str(e)
 
     bounds_ok, pysrc = translate_bounds(ctx)
-    loops_ok = translate_loops(ctx)
+    unread = translate_loops(ctx)
+    loops_ok = unread is not None
+    unread = unread or {}
     tie_ok = bounds_ok and loops_ok
     if tie_ok:
         proof_ok, log = ctx.build_props('C16/Props.v')
@@ -1456,7 +1646,7 @@ def main(ctx):
         for nm in lib.theorem_names(lib.COQ / 'C16' / 'Props.v'):
             ctx.obligations.append({'name': nm, 'discharged': False, 'assumptions': [],
                                     'note': 'translator failed closed'})
-    model_ok, _, _ = lib.coq_make(['C16/Model.vo'])
+    model_ok, _, _ = lib.coq_make(['C16/Model.vo', 'C16/ModelSnap.vo'])
     if proof_ok and not quick:
         rc, out, err, dt = lib.sh(['coqchk', '-silent', '-o', '-Q', str(lib.COQ), 'FV', 'FV.C16.Props'],
                                   cwd=lib.COQ, timeout=900)
@@ -1478,8 +1668,11 @@ def main(ctx):
                 ctx.notes['translator_validation'] = {'error': repr(e)[:300]}
 
     n_knn, n_hd, n_hop, nmax = (30, 16, 40, 10) if quick else (420, 100, 400, 14)
+    root_fn = source_root_fn(ctx)
+    if root_fn is None:
+        ctx.notes['root_cell_correspondence'] = 'not run: the root-cell statements of build_octree_node could not be isolated'
 
-    def run_stream(n_knn, n_hd, n_hop, tag, with_corpus):
+    def run_stream(n_knn, n_hd, n_hop, tag, with_corpus, nproc=1, leaf_knn=9, leaf_hd=6):
         calls = []
         corpus = sorted((lib.VERIF / 'corpus' / PID).glob('*.json')) \
             if with_corpus and (lib.VERIF / 'corpus' / PID).exists() else []
@@ -1488,21 +1681,22 @@ def main(ctx):
             c['id'] = len(calls)
             c['family'] = 'corpus:' + f.stem
             calls.append(c)
-        for c in gen_knn_calls(ctx, n_knn, nmax):
+        for c in gen_knn_calls(ctx, n_knn, nmax, leaf_knn):
             c['id'] = len(calls)
             calls.append(c)
-        calls += gen_hd_calls(ctx, n_hd, nmax, len(calls))
+        calls += gen_hd_calls(ctx, n_hd, nmax, len(calls), leaf_hd)
         calls += gen_hop_calls(ctx, n_hop, len(calls))
-        calls += gen_approx_calls(ctx, max(4, n_knn // 4), nmax, len(calls))
-        # replay of the float octree descent on far / decimal clouds; a cloud that loses a
-        # point is run on the implementation (self search, k = 1)
-        for pts in octree_grid_replay(ctx, 1500 if quick else 20000)[:5]:
-            calls.append({'id': len(calls), 'fn': 'knn', 'approx': True, 'family': 'octree-replay-loss',
-                          'qmode': 'self', 'scale': 0, 'offset_extents': -1,
-                          'A': {'pts_hex': [[float(x).hex() for x in p] for p in pts]}, 'B': None,
-                          'k': 1, 'bound': None, 'bound_f': None})
+        if n_knn:
+            calls += gen_approx_calls(ctx, max(4, n_knn // 4), nmax, len(calls))
+            # replay of the float octree descent on far / decimal clouds; a cloud that loses a
+            # point is run on the implementation (self search, k = 1)
+            for pts in octree_grid_replay(ctx, 1500 if quick else 20000)[:5]:
+                calls.append({'id': len(calls), 'fn': 'knn', 'approx': True, 'family': 'octree-replay-loss',
+                              'qmode': 'self', 'scale': 0, 'offset_extents': -1,
+                              'A': {'pts_hex': [[float(x).hex() for x in p] for p in pts]}, 'B': None,
+                              'k': 1, 'bound': None, 'bound_f': None})
         ctx.log(f'[{tag}] {len(calls)} implementation calls ({len(corpus)} corpus)')
-        res = run_impl_parallel(ctx, calls, 1 if quick else 4, tag)
+        res = run_impl_parallel(ctx, calls, nproc, tag)
         ctx.log('implementation done, max call time %.2fs' % max(r['t'] for r in res.values()))
         fails = []
         fails += check_knn(ctx, [c for c in calls if c['fn'] == 'knn' and not c.get('approx')], res,
@@ -1513,19 +1707,53 @@ def main(ctx):
         ctx.log('hausdorff checked')
         fails += check_hop(ctx, [c for c in calls if c['fn'] == 'hop'], res)
         ctx.log('hop graph checked')
+        if root_fn is not None and model_ok:
+            check_root(ctx, calls, root_fn)
         ctx.corr['cases'] = ctx.evaluations
         ctx.corr['disagreements'] = ctx.corr.get('disagreements', 0) + len(fails)
         return report(ctx, fails, res)
 
-    n_bad = run_stream(n_knn, n_hd, n_hop, 'main', True)
+    n_bad = run_stream(n_knn, n_hd, n_hop, 'main', True, 1 if quick else 4)
     ctx.notes['search_evaluations'] = ctx.evaluations
     if n_bad == 0 and not (tie_ok and proof_ok and valid_ok):
         # a proof / the translation broke and the regular stream shows no failing input:
         # search with a larger budget before reporting `no-failing-input-found`
         ctx.log('proof or tie broken: extended search for a failing input')
-        n_bad = run_stream(60, 60, 20, 'search', False)
+        n_bad = run_stream(60, 75, 20, 'search', False, 2, 5, 3)
         ctx.notes['extended_search'] = {'ran': True, 'failures_found': n_bad}
         ctx.notes['search_evaluations'] = ctx.evaluations
+    elif n_bad == 0 and unread:
+        # T -> H: the control flow of some kernel is written in a way the translator cannot
+        # read.  Not an alarm: the theorems stand for the baseline model (Model.v / cfg_code);
+        # what is decided here is whether the code still behaves like that model, by a widened
+        # correspondence on everything the unread functions decide.
+        kinds = sorted({k_ for f in unread for k_ in c16_loops.AFFECTS.get(f, ('knn', 'hd', 'hop'))})
+        sizes = {'knn': 130 if 'knn' in kinds else 0, 'hd': 110 if 'hd' in kinds else 0,
+                 'hop': 150 if 'hop' in kinds else 0}
+        ctx.log('unread control flow', sorted(unread), '-> widened correspondence on', kinds)
+        before = ctx.evaluations
+        try:
+            n_bad = run_stream(sizes['knn'], sizes['hd'], sizes['hop'], 'widened', False, 3, 5, 3)
+            ran = True
+        except Exception as e:  # noqa
+            ran = False
+            ctx.notes['widened_error'] = repr(e)[:500]
+        n_w = ctx.evaluations - before
+        ctx.notes['tie'] = ('H (translator could not read ' + ', '.join(sorted(unread)) + ': '
+                            + '; '.join(s_[8:200] for s_ in unread.values())
+                            + f'; baseline model + widened correspondence on {"/".join(kinds)}, {n_w} cases, '
+                            + f'{n_bad} disagreements)')
+        ctx.notes['widened_correspondence'] = {'functions_unread': sorted(unread), 'streams': sizes,
+                                               'cases': n_w, 'failures_found': n_bad, 'ran': ran}
+        ctx.notes['search_evaluations'] = ctx.evaluations
+        if not ran:
+            ctx.violation('tie-broken', {'unread': unread, 'error': ctx.notes.get('widened_error')},
+                          'the widened correspondence runs when the control flow cannot be read',
+                          'it could not run', 'translator c16_loops + widened correspondence',
+                          found_input=False, signature={'kind': 'tie-broken', 'cause': 'widened-stream-failed'})
+    else:
+        ctx.notes['tie'] = 'T (bound kernels translated; control flow matched: ' + ', '.join(
+            f'{f}={s_}' for f, s_ in (ctx.notes.get('loop_translator_status') or {}).items()) + ') + H'
 
     if not tie_ok and n_bad == 0:
         ctx.violation('tie-broken', {'translator_error': ctx.notes.get('translator_error'),
@@ -1561,7 +1789,7 @@ def replay(path):
         c.setdefault(k_, v_)
     res = run_impl(ctx, [c], 'replay')
     print('implementation:', json.dumps(res[0])[:3000])
-    lib.coq_make(['C16/Model.vo'])
+    lib.coq_make(['C16/Model.vo', 'C16/ModelSnap.vo'])
     if c['fn'] == 'knn' and c.get('approx'):
         c.setdefault('scale', 0)
         c.setdefault('offset_extents', 0)
